@@ -239,8 +239,10 @@ def led__arrow_operator(self: XPathToken, left: XPathToken) -> XPathToken:
         self[:] = left, self.parser.expression(80)
     elif isinstance(next_token, ProxyToken):
         self.parser.parse_arguments = False
-        self[:] = left, next_token.nud()
-        self.parser.parse_arguments = True
+        try:
+            self[:] = left, next_token.nud()
+        finally:
+            self.parser.parse_arguments = True
         self.parser.advance()
     elif isinstance(next_token, XPathFunction):
         self[:] = left, next_token
@@ -250,8 +252,10 @@ def led__arrow_operator(self: XPathToken, left: XPathToken) -> XPathToken:
     else:
         next_token.expected('(name)', ':', 'Q{', '(')
         self.parser.parse_arguments = False
-        self[:] = left, self.parser.expression(80)
-        self.parser.parse_arguments = True
+        try:
+            self[:] = left, self.parser.expression(80)
+        finally:
+            self.parser.parse_arguments = True
 
     right = self.parser.expression(67)
     right.expected('(')
